@@ -833,10 +833,11 @@ def unpack(s):
     return json.loads(zlib.decompress(base64.b64decode(s)).decode()) if s else []
 
 
-def ks_for(crc, nconc):
-    """concretizations of one CASE: 0 canonical, 1..nconc-1 sampled, and for every STRESS_EVERY-th
-    case one size-stressed concretization (number nconc)"""
-    return list(range(nconc)) + ([nconc] if crc % STRESS_EVERY == 0 else [])
+def ks_for(crc, nconc, kind="codec"):
+    """concretizations of one CASE: 0 canonical, 1..nconc-1 sampled (documents: for every second case),
+    and for every STRESS_EVERY-th case one size-stressed concretization (number nconc)"""
+    ks = [k for k in range(nconc) if k == 0 or kind != "doc" or (crc // 7 + k) % 2 == 0]
+    return ks + ([nconc] if crc % STRESS_EVERY == 0 else [])
 
 
 def _doc_run(case, crc, seed, k, diag=None, nconc=None):
@@ -878,7 +879,7 @@ def _worker(args):
     for bi, body in enumerate(bodies):
         case = json.loads(body)
         crc = zlib.crc32(body.encode())
-        for k in ks_for(crc, nconc):
+        for k in ks_for(crc, nconc, kind):
             diag = [] if len(drift) < 5 else None
             n += 1
             if kind == "codec":
@@ -1430,7 +1431,7 @@ def _validate_traces(ctx, traces, diag, controls=()):
     nreal = len(traces)
     with open(path, "w") as f:
         f.write(json.dumps(list(traces) + list(controls)))
-    r = ctx.tlc("TraceCopyrightDoc", "TraceCopyrightDoc.cfg", workers=2, env={"TRACE_FILE": path, "TRACE_DIAG": diag},
+    r = ctx.tlc("TraceCopyrightDoc", "TraceCopyrightDoc.cfg", workers=4, env={"TRACE_FILE": path, "TRACE_DIAG": diag},
                 want_tags={"ACCEPTED", "AT", "REJECT"}, java_opts=["-Xss16m"])
     os.unlink(path)
     if r.violated:
@@ -1487,7 +1488,9 @@ def explain_doc(hdr, ops, o, at):
     return "%s; %s" % (DOC_STEP.get(at, "step %d" % at), msg or "(the concrete comparison sees no difference)")
 
 
-def run_traces(ctx, quick):
+def run_traces(ctx, quick, pool=None):
+    """records the executions, has them validated by TLC (in a thread of `pool` when given) and returns
+    the function that judges the result (to be called after the replay leg, which runs meanwhile)"""
     rng = ctx.rng
     ndoc, ncodec = (400, 800) if quick else (6000, 20000)
     traces, metas = [], []
@@ -1532,7 +1535,16 @@ def run_traces(ctx, quick):
         tr["_dom"] = dom
         traces.append(tr)
         metas.append(("codec", lines, o))
-    rejected, info, notes, (ncontrols, missing) = validate(ctx, traces)
+    fut = pool.submit(validate, ctx, traces) if pool is not None else None
+
+    def finish():
+        _finish_traces(ctx, traces, metas, ndoc, ncodec, kinds, nedits, leaks, suite, csuite, nstress,
+                       fut.result() if fut is not None else validate(ctx, traces))
+    return finish
+
+
+def _finish_traces(ctx, traces, metas, ndoc, ncodec, kinds, nedits, leaks, suite, csuite, nstress, result):
+    rejected, info, notes, (ncontrols, missing) = result
     if missing:
         ctx.drift("control traces not generated this run: %s" % ", ".join(missing))
     ctx.traces += len(traces)
@@ -1671,7 +1683,7 @@ def run(ctx):
 
 
 def _run(ctx, quick, cfg_codec, cfg_doc, negs, mp_pool, procs):
-    with ThreadPoolExecutor(max_workers=7) as pool:
+    with ThreadPoolExecutor(max_workers=8) as pool:
         f_doc = pool.submit(core.run_tlc, "CopyrightDoc", cfg_doc, ctx.work, workers=6 if quick else 8, keep_raw=True,
                             want_tags=set(), timeout=900 if quick else 7200)
         f_codec = pool.submit(core.run_tlc, "CopyrightDoc", cfg_codec, ctx.work, workers=2, keep_raw=True,
@@ -1681,7 +1693,7 @@ def _run(ctx, quick, cfg_codec, cfg_doc, negs, mp_pool, procs):
             f_negs.append(pool.submit(spec_controls_off, ctx))
         # code -> spec while TLC explores
         unspecified_zone(ctx)
-        run_traces(ctx, quick)
+        finish_traces = run_traces(ctx, quick, pool)
         # spec -> code
         for name, fut, kind, nconc in (("codec", f_codec, "codec", 2 if quick else 6), ("doc", f_doc, "doc", 2)):
             r = fut.result()
@@ -1696,6 +1708,7 @@ def _run(ctx, quick, cfg_codec, cfg_doc, negs, mp_pool, procs):
                                  "depth": r.depth, "wall_s": round(r.wall, 2), "violated": r.violated})
             ctx.states += r.distinct
             ctx.transitions += r.generated
+        finish_traces()
         ctx.extra["spec_negative_controls"] = [f.result() for f in f_negs]
 
 
@@ -1711,8 +1724,8 @@ def _replay_doc_sequence(case):
     seq = []
     for kind, nc, body in unpack(case.get("history", "")):
         crc = zlib.crc32(body.encode())
-        seq += [(kind, json.loads(body), crc, k, nc) for k in ks_for(crc, nc)]
-    seq += [("doc", case["case"], case["crc"], k, nconc) for k in ks_for(case["crc"], nconc) if k <= case["k"]]
+        seq += [(kind, json.loads(body), crc, k, nc) for k in ks_for(crc, nc, kind)]
+    seq += [("doc", case["case"], case["crc"], k, nconc) for k in ks_for(case["crc"], nconc, "doc") if k <= case["k"]]
     prev = None
     for j, (kind, c, crc, k, nc) in enumerate(seq):
         if kind == "codec":
